@@ -107,7 +107,8 @@ Section MPMC.
     [ destruct (Z_lt_dec i j) as [?L|?L];
       [ pose proof (same_slot_lt cap i j Hcap0 E ltac:(assumption))
       | destruct (Z.eq_dec i j) as [?Eij|?Nij];
-        [ | pose proof (same_slot_lt cap j i Hcap0 (eq_sym E) ltac:(lia)) ] ]
+        [ | pose proof (same_slot_lt cap j i Hcap0 (eq_sym E) ltac:(lia)) ] ];
+      try rewrite E in *
     | ].
 
   (* ---------------- bookkeeping ---------------- *)
@@ -435,20 +436,473 @@ Section MPMC.
         change (m_slot st1 (i0 mod cap)) with (updZ (m_slot st) (i mod cap) v (i0 mod cap)).
         slots i0 i.
         + lia.
-        + subst i0. assert (q = p) by (eapply (mv_wuniq0 q p _ _ i E Epc); reflexivity). subst q. rewrite Epc in E. discriminate.
+        + subst. assert (q = p) by (eapply (mv_wuniq0 q p _ _ _ E Epc); reflexivity). subst q. rewrite Epc in E. discriminate.
         + lia.
         + rewrite updZ_other by exact Nslot. exact D.
       - (* data *) intros i' Hi Hm.
         change (m_slot st1 (i' mod cap)) with (updZ (m_slot st) (i mod cap) v (i' mod cap)).
         change (m_mark st1) with (m_mark st) in Hm. change (m_gval st1 i') with (m_gval st i').
         slots i' i; try lia.
-        + subst i'. lia.
-        + rewrite updZ_other by exact Nslot. apply mv_data0; assumption. }
+        rewrite updZ_other by exact Nslot. apply mv_data0; assumption. }
     unfold m_goto. apply (inv_thr st1 p (MPushWr snd v i i)); try exact I1; try exact Epc.
-    - intros pc' E. cbn [thr_goto t_pc] in E. inversion E; subst pc'. repeat split; try reflexivity; try exact WHp; try exact Hmp.
+    - intros pc' E. cbn [thr_goto t_pc] in E. inversion E; subst pc'.
+      split; [reflexivity|]. split; [reflexivity|]. cbn [pc_ok]. split; [reflexivity|]. split; [exact WHp|]. split; [exact Hmp|].
       change (m_slot st1 (i mod cap)) with (updZ (m_slot st) (i mod cap) v (i mod cap)). apply updZ_same.
     - intros E. discriminate.
     - reflexivity.
     - reflexivity.
   Qed.
+
+  (* ---------------- (F): the holder of write ticket i publishes it (mark.store) and returns ---------------- *)
+  Lemma inv_publish st p snd v i :
+    MInv st -> t_pc (m_thr st p) = Some (MPushStM snd v i i) ->
+    MInv (m_finish (m_set_mark st (i mod cap) (2 * (i / cap) + 1)) p (if snd then RSent i v else RPushOk i v)).
+  Proof.
+    intros I Epc.
+    pose proof (mv_pc st I p _ Epc) as Kp. cbn [pc_ok] in Kp. destruct Kp as (_ & WHp & Hmp & Hsp).
+    set (r := if snd then RSent i v else RPushOk i v).
+    set (st' := m_finish (m_set_mark st (i mod cap) (2 * (i / cap) + 1)) p r).
+    assert (Hthr : forall q, q <> p -> m_thr st' q = m_thr st q) by (intros q N; unfold st'; msimpl; apply upd_other; exact N).
+    assert (Hthp : m_thr st' p = thr_finish mpmc_entry (m_thr st p) r) by (unfold st'; msimpl; apply upd_same).
+    assert (Hpu : forall q, q <> p -> pushed st' q = pushed st q) by (intros q N; unfold pushed, chron; rewrite Hthr by exact N; reflexivity).
+    assert (Hpup : pushed st' p = pushed st p ++ [(i, v)]).
+    { unfold pushed, chron. rewrite Hthp, finish_res. unfold push_items. rewrite flat_map_snoc. unfold r. destruct snd; reflexivity. }
+    assert (Hpo : forall q, popped st' q = popped st q).
+    { intros q. unfold popped, chron. destruct (Nat.eq_dec q p) as [->|N]; [|rewrite Hthr by exact N; reflexivity].
+      rewrite Hthp, finish_res. unfold pop_items. rewrite flat_map_snoc. unfold r. destruct snd; simpl; rewrite app_nil_r; reflexivity. }
+    assert (Hmk : forall j, m_mark st' j = updZ (m_mark st) (i mod cap) (2 * (i / cap) + 1) j) by reflexivity.
+    assert (Hpnh : forall pcq, t_pc (m_thr st' p) = Some pcq -> whold pcq = None /\ rhold pcq = None /\ pc_ok st' p pcq).
+    { intros pcq E. rewrite Hthp in E. apply finish_pc in E. destruct E as [o ->]. destruct (entry_nohold o). repeat split; auto. apply entry_ok. }
+    (* holders after = holders before, except p's hold of i *)
+    assert (Hfw : forall q pcq, t_pc (m_thr st' q) = Some pcq -> (whold pcq <> None \/ rhold pcq <> None) -> q <> p /\ t_pc (m_thr st q) = Some pcq).
+    { intros q pcq E Hh. destruct (Nat.eq_dec q p) as [->|N].
+      - destruct (Hpnh pcq E) as (A & B & _). rewrite A, B in Hh. destruct Hh; congruence.
+      - split; [exact N|]. rewrite Hthr in E by exact N. exact E. }
+    pose proof I as I0. destruct I.
+    assert (Hwother : forall q pcq i', t_pc (m_thr st q) = Some pcq -> whold pcq = Some i' -> q <> p -> i' <> i).
+    { intros q pcq i' E Hh N ->. apply N. eapply (mv_wuniq0 q p _ _ i E Epc); [exact Hh|reflexivity]. }
+    constructor; try assumption.
+    - (* pc *) intros q pcq E. destruct (Nat.eq_dec q p) as [->|N]; [apply Hpnh; exact E|].
+      rewrite Hthr in E by exact N. pose proof (mv_pc0 q pcq E) as K.
+      assert (WH : forall i' v', wheld st q i' v' -> wheld st' q i' v') by (intros i' v' H; unfold wheld in *; rewrite Hpu by exact N; exact H).
+      assert (RH : forall i', rheld st q i' -> rheld st' q i') by (intros i' H; unfold rheld in *; rewrite Hpo; exact H).
+      destruct pcq; cbn [pc_ok] in *; try exact K;
+        repeat match goal with H : _ /\ _ |- _ => destruct H end;
+        repeat match goal with |- _ /\ _ => split end;
+        try assumption; try (apply WH; assumption); try (apply RH; assumption);
+        try (change (m_slot st') with (m_slot st); assumption);
+        try (change (m_gval st') with (m_gval st); assumption);
+        rewrite Hmk.
+      + (* MPushCas *) slots t i; try (rewrite updZ_same; lia). rewrite updZ_other by exact Nslot. assumption.
+      + (* MPushWr *) subst t. pose proof (Hwother q _ i0 E eq_refl N). slots i0 i; try lia. rewrite updZ_other by exact Nslot. assumption.
+      + (* MPushStM *) subst t. pose proof (Hwother q _ i0 E eq_refl N). slots i0 i; try lia. rewrite updZ_other by exact Nslot. assumption.
+      + (* MPopCas *) slots h i; try (rewrite updZ_same; lia). rewrite updZ_other by exact Nslot. assumption.
+      + (* MPopRd *) slots i0 i; try lia. rewrite updZ_other by exact Nslot. assumption.
+      + (* MPopStM *) slots i0 i; try lia. rewrite updZ_other by exact Nslot. assumption.
+    - (* wuniq *) intros q1 q2 pc1 pc2 i' E1 E2 H1 H2.
+      destruct (Hfw q1 pc1 E1) as [_ A1]; [left; congruence|]. destruct (Hfw q2 pc2 E2) as [_ A2]; [left; congruence|].
+      eapply mv_wuniq0; eauto.
+    - intros q1 q2 pc1 pc2 i' E1 E2 H1 H2.
+      destruct (Hfw q1 pc1 E1) as [_ A1]; [right; congruence|]. destruct (Hfw q2 pc2 E2) as [_ A2]; [right; congruence|].
+      eapply mv_runiq0; eauto.
+    - (* wpub *) intros i' Hi F. rewrite Hmk. destruct (Z.eq_dec i' i) as [->|Ni]; [rewrite updZ_same; lia|].
+      assert (F0 : wfree st i').
+      { intros q pcq E Hh. destruct (Nat.eq_dec q p) as [->|N].
+        - rewrite Epc in E. inversion E; subst pcq. simpl in Hh. congruence.
+        - apply (F q pcq); [rewrite Hthr by exact N; exact E|exact Hh]. }
+      pose proof (mv_wpub0 i' Hi F0). slots i' i; try (rewrite updZ_same; lia). rewrite updZ_other by exact Nslot. assumption.
+    - (* wunp *) intros i' Hi Hor. rewrite Hmk.
+      assert (Ni : i' <> i).
+      { destruct Hor as [G|(q & pcq & E & Hh)]; [destruct WHp; change (m_gt st') with (m_gt st) in G; lia|].
+        destruct (Hfw q pcq E) as [N E0]; [left; congruence|]. eapply Hwother; eauto. }
+      assert (Hor0 : m_gt st <= i' \/ wbusy st i').
+      { destruct Hor as [G|(q & pcq & E & Hh)]; [left; exact G|right].
+        destruct (Hfw q pcq E) as [N E0]; [left; congruence|]. exists q, pcq. auto. }
+      pose proof (mv_wunp0 i' Hi Hor0). slots i' i; try (rewrite updZ_same; lia); try lia. rewrite updZ_other by exact Nslot. assumption.
+    - (* rdone *) intros i' Hi F. rewrite Hmk.
+      assert (F0 : rfree st i').
+      { intros q pcq E Hh. destruct (Nat.eq_dec q p) as [->|N].
+        - rewrite Epc in E. inversion E; subst pcq. simpl in Hh. congruence.
+        - apply (F q pcq); [rewrite Hthr by exact N; exact E|exact Hh]. }
+      pose proof (mv_rdone0 i' Hi F0). slots i' i; try (rewrite updZ_same; lia). rewrite updZ_other by exact Nslot. assumption.
+    - (* rund *) intros i' Hi Hor. rewrite Hmk.
+      assert (Hor0 : m_gh st <= i' \/ rbusy st i').
+      { destruct Hor as [G|(q & pcq & E & Hh)]; [left; exact G|right].
+        destruct (Hfw q pcq E) as [N E0]; [right; congruence|]. exists q, pcq. auto. }
+      pose proof (mv_rund0 i' Hi Hor0). slots i' i; try (rewrite updZ_same; lia). rewrite updZ_other by exact Nslot. assumption.
+    - (* data *) intros i' Hi Hm. rewrite Hmk in Hm. change (m_slot st') with (m_slot st). change (m_gval st') with (m_gval st).
+      slots i' i.
+      + rewrite updZ_same in Hm. lia.
+      + subst i'. rewrite Hsp. destruct WHp as (_ & Hv & _). congruence.
+      + rewrite updZ_same in Hm. lia.
+      + rewrite updZ_other in Hm by exact Nslot. apply mv_data0; assumption.
+    - (* push *) intros q i' w Hin. change (m_gt st') with (m_gt st). change (m_gval st') with (m_gval st). change (m_gwho st') with (m_gwho st).
+      destruct (Nat.eq_dec q p) as [->|N]; [|rewrite Hpu in Hin by exact N; apply mv_push0; exact Hin].
+      rewrite Hpup in Hin. apply in_app_or in Hin. destruct Hin as [Hin|[Hin|[]]]; [apply mv_push0; exact Hin|].
+      inversion Hin; subst i' w. destruct WHp as (A & B & C0 & _). auto.
+    - (* pop *) intros q i' w Hin. rewrite Hpo in Hin. exact (mv_pop0 q i' w Hin).
+    - (* psort *) intros q. destruct (Nat.eq_dec q p) as [->|N]; [|rewrite Hpu by exact N; apply mv_psort0].
+      rewrite Hpup, map_app. simpl. apply SSorted_snoc; [apply mv_psort0|].
+      intros y Hy. apply in_map_iff in Hy. destruct Hy as ([j w] & <- & Hin). destruct WHp as (_ & _ & _ & Hlt). apply (Hlt j w Hin).
+    - intros q. rewrite Hpo. apply mv_csort0.
+    - (* wall *) intros i' Hi. change (m_gt st') with (m_gt st) in Hi. change (m_gval st') with (m_gval st). change (m_gwho st') with (m_gwho st).
+      destruct (mv_wall0 i' Hi) as [L|(pc0 & E0 & Hh)].
+      + left. destruct (Nat.eq_dec (m_gwho st i') p) as [Eq|N]; [rewrite Eq in *; rewrite Hpup; apply in_or_app; left; exact L | rewrite Hpu by exact N; exact L].
+      + destruct (Nat.eq_dec (m_gwho st i') p) as [Eq|N].
+        * left. rewrite Eq in *. rewrite Epc in E0. inversion E0; subst pc0. simpl in Hh. inversion Hh; subst i'.
+          rewrite Hpup. apply in_or_app. right. destruct WHp as (_ & Hv & _). rewrite Hv. left; reflexivity.
+        * right. exists pc0. rewrite Hthr by exact N. auto.
+    - (* rall *) intros i' Hi. change (m_gh st') with (m_gh st) in Hi. change (m_gval st') with (m_gval st). change (m_gpop st') with (m_gpop st).
+      rewrite Hpo. destruct (mv_rall0 i' Hi) as [L|(pc0 & E0 & Hh)]; [left; exact L|right].
+      assert (m_gpop st i' <> p) by (intros Eq; rewrite Eq, Epc in E0; inversion E0; subst pc0; simpl in Hh; congruence).
+      exists pc0. rewrite Hthr by assumption. auto.
+  Qed.
+
+  (* ---------------- (G): the holder of read ticket i releases the slot (mark.store) and returns ---------------- *)
+  Lemma inv_release st p rcv i v :
+    MInv st -> t_pc (m_thr st p) = Some (MPopStM rcv i i v) ->
+    MInv (m_finish (m_set_mark st (i mod cap) (2 * (i / cap) + 2)) p (if rcv then RRecv i v else RPopOk i v)).
+  Proof.
+    intros I Epc.
+    pose proof (mv_pc st I p _ Epc) as Kp. cbn [pc_ok] in Kp. destruct Kp as (_ & RHp & Hmp & Hvp).
+    assert (Hs_i : s <= i) by (destruct RHp; lia).
+    destruct (mark_odd_published st i I Hs_i Hmp) as [Hilt _].
+    set (r := if rcv then RRecv i v else RPopOk i v).
+    set (st' := m_finish (m_set_mark st (i mod cap) (2 * (i / cap) + 2)) p r).
+    assert (Hthr : forall q, q <> p -> m_thr st' q = m_thr st q) by (intros q N; unfold st'; msimpl; apply upd_other; exact N).
+    assert (Hthp : m_thr st' p = thr_finish mpmc_entry (m_thr st p) r) by (unfold st'; msimpl; apply upd_same).
+    assert (Hpo : forall q, q <> p -> popped st' q = popped st q) by (intros q N; unfold popped, chron; rewrite Hthr by exact N; reflexivity).
+    assert (Hpop : popped st' p = popped st p ++ [(i, v)]).
+    { unfold popped, chron. rewrite Hthp, finish_res. unfold pop_items. rewrite flat_map_snoc. unfold r. destruct rcv; reflexivity. }
+    assert (Hpu : forall q, pushed st' q = pushed st q).
+    { intros q. unfold pushed, chron. destruct (Nat.eq_dec q p) as [->|N]; [|rewrite Hthr by exact N; reflexivity].
+      rewrite Hthp, finish_res. unfold push_items. rewrite flat_map_snoc. unfold r. destruct rcv; simpl; rewrite app_nil_r; reflexivity. }
+    assert (Hmk : forall j, m_mark st' j = updZ (m_mark st) (i mod cap) (2 * (i / cap) + 2) j) by reflexivity.
+    assert (Hpnh : forall pcq, t_pc (m_thr st' p) = Some pcq -> whold pcq = None /\ rhold pcq = None /\ pc_ok st' p pcq).
+    { intros pcq E. rewrite Hthp in E. apply finish_pc in E. destruct E as [o ->]. destruct (entry_nohold o). repeat split; auto. apply entry_ok. }
+    assert (Hfw : forall q pcq, t_pc (m_thr st' q) = Some pcq -> (whold pcq <> None \/ rhold pcq <> None) -> q <> p /\ t_pc (m_thr st q) = Some pcq).
+    { intros q pcq E Hh. destruct (Nat.eq_dec q p) as [->|N].
+      - destruct (Hpnh pcq E) as (A & B & _). rewrite A, B in Hh. destruct Hh; congruence.
+      - split; [exact N|]. rewrite Hthr in E by exact N. exact E. }
+    pose proof I as I0. destruct I.
+    assert (Hrother : forall q pcq i', t_pc (m_thr st q) = Some pcq -> rhold pcq = Some i' -> q <> p -> i' <> i).
+    { intros q pcq i' E Hh N ->. apply N. eapply (mv_runiq0 q p _ _ i E Epc); [exact Hh|reflexivity]. }
+    constructor; try assumption.
+    - (* pc *) intros q pcq E. destruct (Nat.eq_dec q p) as [->|N]; [apply Hpnh; exact E|].
+      rewrite Hthr in E by exact N. pose proof (mv_pc0 q pcq E) as K.
+      assert (WH : forall i' v', wheld st q i' v' -> wheld st' q i' v') by (intros i' v' H; unfold wheld in *; rewrite Hpu; exact H).
+      assert (RH : forall i', rheld st q i' -> rheld st' q i') by (intros i' H; unfold rheld in *; rewrite Hpo by exact N; exact H).
+      destruct pcq; cbn [pc_ok] in *; try exact K;
+        repeat match goal with H : _ /\ _ |- _ => destruct H end;
+        repeat match goal with |- _ /\ _ => split end;
+        try assumption; try (apply WH; assumption); try (apply RH; assumption);
+        try (change (m_slot st') with (m_slot st); assumption);
+        try (change (m_gval st') with (m_gval st); assumption);
+        rewrite Hmk.
+      + (* MPushCas *) slots t i; try (rewrite updZ_same; lia). rewrite updZ_other by exact Nslot. assumption.
+      + (* MPushWr *) slots i0 i; try lia. rewrite updZ_other by exact Nslot. assumption.
+      + (* MPushStM *) slots i0 i; try lia. rewrite updZ_other by exact Nslot. assumption.
+      + (* MPopCas *) slots h i; try (rewrite updZ_same; lia). rewrite updZ_other by exact Nslot. assumption.
+      + (* MPopRd *) subst h. pose proof (Hrother q _ i0 E eq_refl N). slots i0 i; try lia. rewrite updZ_other by exact Nslot. assumption.
+      + (* MPopStM *) subst h. pose proof (Hrother q _ i0 E eq_refl N). slots i0 i; try lia. rewrite updZ_other by exact Nslot. assumption.
+    - (* wuniq *) intros q1 q2 pc1 pc2 i' E1 E2 H1 H2.
+      destruct (Hfw q1 pc1 E1) as [_ A1]; [left; congruence|]. destruct (Hfw q2 pc2 E2) as [_ A2]; [left; congruence|].
+      eapply mv_wuniq0; eauto.
+    - intros q1 q2 pc1 pc2 i' E1 E2 H1 H2.
+      destruct (Hfw q1 pc1 E1) as [_ A1]; [right; congruence|]. destruct (Hfw q2 pc2 E2) as [_ A2]; [right; congruence|].
+      eapply mv_runiq0; eauto.
+    - (* wpub *) intros i' Hi F. rewrite Hmk.
+      assert (F0 : wfree st i').
+      { intros q pcq E Hh. destruct (Nat.eq_dec q p) as [->|N].
+        - rewrite Epc in E. inversion E; subst pcq. simpl in Hh. congruence.
+        - apply (F q pcq); [rewrite Hthr by exact N; exact E|exact Hh]. }
+      pose proof (mv_wpub0 i' Hi F0). slots i' i; try (rewrite updZ_same; lia). rewrite updZ_other by exact Nslot. assumption.
+    - (* wunp *) intros i' Hi Hor. rewrite Hmk.
+      assert (Hor0 : m_gt st <= i' \/ wbusy st i').
+      { destruct Hor as [G|(q & pcq & E & Hh)]; [left; exact G|right].
+        destruct (Hfw q pcq E) as [N E0]; [left; congruence|]. exists q, pcq. auto. }
+      pose proof (mv_wunp0 i' Hi Hor0). slots i' i; try (rewrite updZ_same; lia). rewrite updZ_other by exact Nslot. assumption.
+    - (* rdone *) intros i' Hi F. rewrite Hmk. destruct (Z.eq_dec i' i) as [->|Ni]; [rewrite updZ_same; lia|].
+      assert (F0 : rfree st i').
+      { intros q pcq E Hh. destruct (Nat.eq_dec q p) as [->|N].
+        - rewrite Epc in E. inversion E; subst pcq. simpl in Hh. congruence.
+        - apply (F q pcq); [rewrite Hthr by exact N; exact E|exact Hh]. }
+      pose proof (mv_rdone0 i' Hi F0). slots i' i; try (rewrite updZ_same; lia). rewrite updZ_other by exact Nslot. assumption.
+    - (* rund *) intros i' Hi Hor. rewrite Hmk.
+      assert (Ni : i' <> i).
+      { destruct Hor as [G|(q & pcq & E & Hh)]; [destruct RHp; change (m_gh st') with (m_gh st) in G; lia|].
+        destruct (Hfw q pcq E) as [N E0]; [right; congruence|]. eapply Hrother; eauto. }
+      assert (Hor0 : m_gh st <= i' \/ rbusy st i').
+      { destruct Hor as [G|(q & pcq & E & Hh)]; [left; exact G|right].
+        destruct (Hfw q pcq E) as [N E0]; [right; congruence|]. exists q, pcq. auto. }
+      pose proof (mv_rund0 i' Hi Hor0). slots i' i; try (rewrite updZ_same; lia); try lia. rewrite updZ_other by exact Nslot. assumption.
+    - (* data *) intros i' Hi Hm. rewrite Hmk in Hm. change (m_slot st') with (m_slot st). change (m_gval st') with (m_gval st).
+      slots i' i; try (rewrite updZ_same in Hm; lia).
+      rewrite updZ_other in Hm by exact Nslot. apply mv_data0; assumption.
+    - (* push *) intros q i' w Hin. rewrite Hpu in Hin. exact (mv_push0 q i' w Hin).
+    - (* pop *) intros q i' w Hin. change (m_gt st') with (m_gt st). change (m_gh st') with (m_gh st). change (m_gval st') with (m_gval st). change (m_gpop st') with (m_gpop st).
+      destruct (Nat.eq_dec q p) as [->|N]; [|rewrite Hpo in Hin by exact N; apply mv_pop0; exact Hin].
+      rewrite Hpop in Hin. apply in_app_or in Hin. destruct Hin as [Hin|[Hin|[]]]; [apply mv_pop0; exact Hin|].
+      inversion Hin; subst i' w. destruct RHp as (A & B & _). auto.
+    - intros q. rewrite Hpu. apply mv_psort0.
+    - (* csort *) intros q. destruct (Nat.eq_dec q p) as [->|N]; [|rewrite Hpo by exact N; apply mv_csort0].
+      rewrite Hpop, map_app. simpl. apply SSorted_snoc; [apply mv_csort0|].
+      intros y Hy. apply in_map_iff in Hy. destruct Hy as ([j w] & <- & Hin). destruct RHp as (_ & _ & Hlt). apply (Hlt j w Hin).
+    - (* wall *) intros i' Hi. change (m_gt st') with (m_gt st) in Hi. change (m_gval st') with (m_gval st). change (m_gwho st') with (m_gwho st).
+      rewrite Hpu. destruct (mv_wall0 i' Hi) as [L|(pc0 & E0 & Hh)]; [left; exact L|right].
+      assert (m_gwho st i' <> p) by (intros Eq; rewrite Eq, Epc in E0; inversion E0; subst pc0; simpl in Hh; congruence).
+      exists pc0. rewrite Hthr by assumption. auto.
+    - (* rall *) intros i' Hi. change (m_gh st') with (m_gh st) in Hi. change (m_gval st') with (m_gval st). change (m_gpop st') with (m_gpop st).
+      destruct (mv_rall0 i' Hi) as [L|(pc0 & E0 & Hh)].
+      + left. destruct (Nat.eq_dec (m_gpop st i') p) as [Eq|N]; [rewrite Eq in *; rewrite Hpop; apply in_or_app; left; exact L | rewrite Hpo by exact N; exact L].
+      + destruct (Nat.eq_dec (m_gpop st i') p) as [Eq|N].
+        * left. rewrite Eq in *. rewrite Epc in E0. inversion E0; subst pc0. simpl in Hh. inversion Hh; subst i'.
+          rewrite Hpop. apply in_or_app. right. rewrite <- Hvp. left; reflexivity.
+        * right. exists pc0. rewrite Hthr by exact N. auto.
+  Qed.
+
+  Lemma inv_goto st p pc pc' :
+    MInv st -> t_pc (m_thr st p) = Some pc -> whold pc' = whold pc -> rhold pc' = rhold pc -> pc_ok st p pc' ->
+    MInv (m_goto st p pc').
+  Proof.
+    intros I E Hw Hr K. unfold m_goto. apply (inv_thr st p pc); try assumption; try reflexivity.
+    - intros pc'' E'. cbn [thr_goto t_pc] in E'. inversion E'; subst pc''. auto.
+    - intros E'. discriminate.
+  Qed.
+
+  Lemma inv_fail st p pc r :
+    MInv st -> t_pc (m_thr st p) = Some pc -> whold pc = None -> rhold pc = None -> push_item r = [] -> pop_item r = [] ->
+    MInv (m_finish st p r).
+  Proof.
+    intros I E Hw Hr P1 P2. unfold m_finish. apply (inv_thr st p pc); try assumption.
+    - intros pc' E'. apply finish_pc in E'. destruct E' as [o ->]. destruct (entry_nohold o) as [A B].
+      rewrite A, B, Hw, Hr. repeat split. apply entry_ok.
+    - intros _. auto.
+    - rewrite finish_res. unfold push_items, pushed, chron. rewrite flat_map_snoc, P1, app_nil_r. reflexivity.
+    - rewrite finish_res. unfold pop_items, popped, chron. rewrite flat_map_snoc, P2, app_nil_r. reflexivity.
+  Qed.
+
+  Definition nowrap (st : mstate) : Prop := m_gt st + cap < W64 /\ m_gh st + cap < W64.
+
+  (* ---------------- every transition preserves the invariant (as long as the claim counters do not wrap) -------- *)
+  Lemma mpmc_step_inv st p : MInv st -> nowrap (fst (mpmc_step c st p)) -> MInv (fst (mpmc_step c st p)).
+  Proof.
+    intros I NW. unfold mpmc_step in *. destruct (t_pc (m_thr st p)) as [pc|] eqn:Epc; [|exact I].
+    pose proof (mv_pc st I p pc Epc) as K. pose proof (mv_s st I) as Hs0.
+    pose proof (mv_head st I) as Hhd. pose proof (mv_tail st I) as Htl.
+    destruct (mv_lo st I) as [Hlo1 Hlo2]. destruct (mv_g st I) as [Hg1 Hg2].
+    pose proof Hcap0 as Hcp.
+    destruct pc; cbn [pc_ok] in K; cbn [fst]; rewrite ?Htl, ?Hhd in NW |- *.
+    - (* MPushLdT *) apply (inv_goto st p _ _ I Epc); try reflexivity. cbn [pc_ok]. rewrite ?Htl. lia.
+    - (* MPushLdM *) rewrite idx_mod by exact Hc. fold cap.
+      destruct (marks_nowrap t ltac:(lia) ltac:(lia)) as (Em & _ & _). rewrite Em.
+      destruct (Z.eqb_spec (m_mark st (t mod cap)) (2 * (t / cap))) as [Eq|Nq]; cbn [fst];
+        apply (inv_goto st p _ _ I Epc); try reflexivity; cbn [pc_ok]; [split; [exact K|lia] | exact K].
+    - (* MPushCas *) destruct K as [K1 K2]. rewrite ?Htl.
+      destruct (Z.eqb_spec (m_gt st) t) as [Eq|Nq]; cbn [fst] in *.
+      + subst t. rewrite wrap_small by lia.
+        apply (inv_claim_tail st p _ v _ I Epc); try reflexivity.
+        * unfold nowrap in NW. cbn [fst m_goto m_claim_tail m_set_thr m_gt m_gh] in NW. lia.
+        * left. split; [reflexivity|exact K2].
+      + apply (inv_goto st p _ _ I Epc); try reflexivity. cbn [pc_ok]. lia.
+    - (* MPushLdH *) apply (inv_goto st p _ _ I Epc); try reflexivity; try exact Logic.I.
+    - (* MPushLdT2 *) rewrite ?Htl.
+      destruct ((m_gt st =? prev) && check_full c h (m_gt st)); cbn [fst].
+      + apply (inv_fail st p _ _ I Epc); reflexivity.
+      + apply (inv_goto st p _ _ I Epc); try reflexivity. cbn [pc_ok]. lia.
+    - (* MPushWr *) destruct K as (-> & K2 & K3). rewrite idx_mod by exact Hc. apply inv_write; assumption.
+    - (* MPushStM *) destruct K as (-> & K2 & K3 & K4). rewrite idx_mod by exact Hc. fold cap.
+      assert (Hi : s <= i < m_gt st) by (destruct K2; assumption).
+      destruct (marks_nowrap i ltac:(lia) ltac:(lia)) as (_ & Em & _). rewrite Em. apply inv_publish; assumption.
+    - (* MPopLdH *) apply (inv_goto st p _ _ I Epc); try reflexivity. cbn [pc_ok]. rewrite ?Hhd. lia.
+    - (* MPopLdM *) rewrite idx_mod by exact Hc. fold cap.
+      destruct (marks_nowrap h ltac:(lia) ltac:(lia)) as (_ & Em & _). rewrite Em.
+      destruct (Z.eqb_spec (m_mark st (h mod cap)) (2 * (h / cap) + 1)) as [Eq|Nq]; cbn [fst];
+        apply (inv_goto st p _ _ I Epc); try reflexivity; cbn [pc_ok]; [split; [exact K|lia] | exact K].
+    - (* MPopCas *) destruct K as [K1 K2]. rewrite ?Hhd.
+      destruct (Z.eqb_spec (m_gh st) h) as [Eq|Nq]; cbn [fst] in *.
+      + subst h. rewrite wrap_small by lia.
+        apply (inv_claim_head st p _ _ I Epc); try reflexivity.
+        * unfold nowrap in NW. cbn [fst m_goto m_claim_head m_set_thr m_gt m_gh] in NW. lia.
+        * left. split; [reflexivity|exact K2].
+      + apply (inv_goto st p _ _ I Epc); try reflexivity. cbn [pc_ok]. lia.
+    - (* MPopLdT *) apply (inv_goto st p _ _ I Epc); try reflexivity; try exact Logic.I.
+    - (* MPopLdH2 *) rewrite ?Hhd.
+      destruct ((m_gh st =? prev) && check_empty (m_gh st) t); cbn [fst].
+      + apply (inv_fail st p _ _ I Epc); reflexivity.
+      + apply (inv_goto st p _ _ I Epc); try reflexivity. cbn [pc_ok]. lia.
+    - (* MPopRd *) destruct K as (-> & K2 & K3). rewrite idx_mod by exact Hc. fold cap.
+      apply (inv_goto st p _ _ I Epc); try reflexivity. cbn [pc_ok]. split; [reflexivity|]. split; [exact K2|]. split; [exact K3|].
+      assert (Hi : s <= i) by (destruct K2; lia).
+      destruct (mark_odd_published st i I Hi K3) as [Hlt _].
+      apply (mv_data st I i); [lia|exact K3].
+    - (* MPopStM *) destruct K as (-> & K2 & K3 & K4). rewrite idx_mod by exact Hc. fold cap.
+      assert (Hi : s <= i < m_gh st) by (destruct K2; assumption).
+      destruct (marks_nowrap i ltac:(lia) ltac:(lia)) as (_ & _ & Em). rewrite Em. apply inv_release; assumption.
+    - (* MSendFa *) rewrite ?Htl. rewrite wrap_small by lia.
+      apply (inv_claim_tail st p _ v _ I Epc); try reflexivity.
+      + unfold nowrap in NW. cbn [fst m_goto m_claim_tail m_set_thr m_gt m_gh] in NW. lia.
+      + right. reflexivity.
+    - (* MSendLdM *) destruct K as [-> K2]. rewrite idx_mod by exact Hc. fold cap.
+      assert (Hi : s <= i < m_gt st) by (destruct K2; assumption).
+      destruct (marks_nowrap i ltac:(lia) ltac:(lia)) as (Em & _ & _). rewrite Em.
+      destruct (Z.eqb_spec (m_mark st (i mod cap)) (2 * (i / cap))) as [Eq|Nq]; cbn [fst];
+        apply (inv_goto st p _ _ I Epc); try reflexivity; cbn [pc_ok]; auto.
+    - (* MSendSp *) apply (inv_goto st p _ _ I Epc); try reflexivity. exact K.
+    - (* MRecvFa *) rewrite ?Hhd. rewrite wrap_small by lia.
+      apply (inv_claim_head st p _ _ I Epc); try reflexivity.
+      + unfold nowrap in NW. cbn [fst m_goto m_claim_head m_set_thr m_gt m_gh] in NW. lia.
+      + right. reflexivity.
+    - (* MRecvLdM *) destruct K as [-> K2]. rewrite idx_mod by exact Hc. fold cap.
+      assert (Hi : s <= i < m_gh st) by (destruct K2; assumption).
+      destruct (marks_nowrap i ltac:(lia) ltac:(lia)) as (_ & Em & _). rewrite Em.
+      destruct (Z.eqb_spec (m_mark st (i mod cap)) (2 * (i / cap) + 1)) as [Eq|Nq]; cbn [fst];
+        apply (inv_goto st p _ _ I Epc); try reflexivity; cbn [pc_ok]; auto.
+    - (* MRecvSp *) apply (inv_goto st p _ _ I Epc); try reflexivity. exact K.
+  Qed.
+
+  (* ---------------- initial state ---------------- *)
+  Lemma init_mark_le i : 0 <= s -> s + cap < W64 -> s <= i -> init_mark c s (i mod cap) <= 2 * (i / cap).
+  Proof.
+    intros H0 HW Hi. pose proof Hcap0 as Hp. pose proof (cfg_cap_pos c Hc) as H2. fold cap in H2.
+    unfold init_mark. rewrite idx_mod by exact Hc. fold cap.
+    set (q := s / cap). set (r := s mod cap).
+    assert (Es : s = cap * q + r) by (apply Z.div_mod; lia).
+    assert (Hr : 0 <= r < cap) by (apply Z.mod_pos_bound; lia).
+    set (j := i mod cap). assert (Hj : 0 <= j < cap) by (apply Z.mod_pos_bound; lia).
+    assert (Ei : i = cap * (i / cap) + j) by (apply Z.div_mod; lia).
+    assert (Hq : 0 <= q) by (apply Z.div_pos; lia).
+    replace (s - r) with (cap * q) by lia.
+    assert (Hqi : q <= i / cap) by (apply Z.div_le_mono; lia).
+    assert (Hnx : forall n, 0 <= n -> n < W64 -> last_turn_read c n = 2 * (n / cap)).
+    { intros n Hn HnW. unfold last_turn_read. rewrite turn_div by exact Hc. fold cap. rewrite Z.shiftl_mul_pow2 by lia. change (2 ^ 1) with 2.
+      assert (0 <= n / cap) by (apply Z.div_pos; lia).
+      assert (2 * (n / cap) <= n) by (pose proof (Z.mul_div_le n cap Hp); nia).
+      rewrite wrap_small by lia. lia. }
+    destruct (Z.ltb_spec j r) as [Hlt|Hge].
+    - rewrite Hnx by nia.
+      assert (X : (cap * q + j + cap) / cap = q + 1) by (symmetry; apply (Z.div_unique _ _ _ j); [left; lia | ring]). rewrite X.
+      assert (q < i / cap).
+      { destruct (Z.eq_dec q (i / cap)) as [Eq|Nq]; [|lia]. rewrite <- Eq in Ei. lia. }
+      lia.
+    - rewrite Hnx by nia.
+      assert (X : (cap * q + j) / cap = q) by (symmetry; apply (Z.div_unique _ _ _ j); [left; lia | ring]). rewrite X.
+      lia.
+  Qed.
+
+  Lemma init_inv scripts : 0 <= s -> s + cap < W64 -> MInv (mpmc_init c s scripts).
+  Proof.
+    intros H0 HW. pose proof Hcap0 as Hp.
+    assert (Hnp : forall p pc, t_pc (m_thr (mpmc_init c s scripts) p) = Some pc -> exists o, pc = mpmc_entry o).
+    { intros p pc E. simpl in E. unfold thr_init in E. destruct (nth p scripts []) as [|o r]; simpl in E; [discriminate|]. inversion E. eauto. }
+    assert (Hres : forall p, chron (mpmc_init c s scripts) p = []).
+    { intros p. unfold chron. simpl. unfold thr_init. destruct (nth p scripts []); reflexivity. }
+    constructor; cbn [mpmc_init m_head m_tail m_gh m_gt m_mark m_slot m_gval]; try lia.
+    - apply wrap_small. lia.
+    - apply wrap_small. lia.
+    - intros p pc E. destruct (Hnp p pc E) as [o ->]. apply entry_ok.
+    - intros p q pc1 pc2 i E1 E2 H1. destruct (Hnp p pc1 E1) as [o ->]. destruct (entry_nohold o). congruence.
+    - intros p q pc1 pc2 i E1 E2 H1. destruct (Hnp p pc1 E1) as [o ->]. destruct (entry_nohold o). congruence.
+    - intros i Hi _. apply init_mark_le; assumption.
+    - intros i Hi _. pose proof (init_mark_le i H0 HW Hi). lia.
+    - intros p i v. unfold pushed. rewrite Hres. simpl. tauto.
+    - intros p i v. unfold popped. rewrite Hres. simpl. tauto.
+    - intros p. unfold pushed. rewrite Hres. constructor.
+    - intros p. unfold popped. rewrite Hres. constructor.
+  Qed.
+
+  (* ---------------- reachability: ANY sequence of participant choices ---------------- *)
+  Inductive mreach (st0 : mstate) : mstate -> Prop :=
+  | mreach0 : mreach st0 st0
+  | mreachS st p : mreach st0 st -> mreach st0 (fst (mpmc_step c st p)).
+
+  Lemma step_mono st p : m_gt st <= m_gt (fst (mpmc_step c st p)) /\ m_gh st <= m_gh (fst (mpmc_step c st p)).
+  Proof.
+    unfold mpmc_step. destruct (t_pc (m_thr st p)) as [pc|]; [|simpl; lia].
+    destruct pc; cbn [fst];
+      repeat match goal with |- context [if ?b then _ else _] => destruct b end;
+      unfold m_finish, m_goto, m_set_thr, m_set_mark, m_set_slot, m_claim_tail, m_claim_head; cbn [fst m_gt m_gh]; lia.
+  Qed.
+
+  Lemma mreach_inv scripts st : 0 <= s -> mreach (mpmc_init c s scripts) st -> nowrap st -> MInv st.
+  Proof.
+    intros H0 R. induction R as [|st p R IH]; intros NW.
+    - apply init_inv; [exact H0|]. destruct NW as [A _]. exact A.
+    - apply mpmc_step_inv; [|exact NW]. apply IH. destruct (step_mono st p). unfold nowrap in *. lia.
+  Qed.
+
+  Lemma e3step_reach st0 st p f : mreach st0 st -> mreach st0 (fst (mpmc_e3step c st p f)).
+  Proof.
+    intros R. unfold mpmc_e3step.
+    destruct (mpmc_step c st p) as [st1 o] eqn:E1.
+    assert (R1 : mreach st0 st1) by (replace st1 with (fst (mpmc_step c st p)) by (rewrite E1; reflexivity); constructor; exact R).
+    destruct (t_pc (m_thr st1 p)) as [pc|]; [|exact R1].
+    destruct (mpmc_silent pc); [|exact R1]. cbn [fst]. constructor. exact R1.
+  Qed.
+
+  (* ---------------- the properties ---------------- *)
+  (* element i is stored: published by its producer and not yet released by a consumer *)
+  Definition stored (st : mstate) (i : Z) : Prop :=
+    s <= i < m_gt st /\ wfree st i /\ (m_gh st <= i \/ rbusy st i).
+
+  Section Props.
+    Variable scripts : list (list op).
+    Hypothesis Hs0 : 0 <= s.
+    Variable st : mstate.
+    Hypothesis Hreach : mreach (mpmc_init c s scripts) st.
+    Hypothesis Hnw : nowrap st.
+
+    Lemma mpmc_popped_ok p i v : In (i, v) (popped st p) ->
+      s <= i < m_gh st /\ i < m_gt st /\ v = m_gval st i /\ m_gpop st i = p.
+    Proof. apply (mv_pop st (mreach_inv scripts st Hs0 Hreach Hnw)). Qed.
+
+    Lemma mpmc_pushed_ok p i v : In (i, v) (pushed st p) ->
+      s <= i < m_gt st /\ m_gval st i = v /\ m_gwho st i = p.
+    Proof. apply (mv_push st (mreach_inv scripts st Hs0 Hreach Hnw)). Qed.
+
+    (* at most once: an index is returned by at most one pop, of one thread *)
+    Lemma mpmc_pop_unique p q i v w : In (i, v) (popped st p) -> In (i, w) (popped st q) -> p = q /\ v = w.
+    Proof.
+      intros H1 H2. destruct (mpmc_popped_ok _ _ _ H1) as (_ & _ & A & B). destruct (mpmc_popped_ok _ _ _ H2) as (_ & _ & C0 & D).
+      split; congruence.
+    Qed.
+
+    (* at least once: every claimed index has been returned by its claimer, or the claimer is still inside that pop;
+       same for the push side *)
+    Lemma mpmc_nothing_lost i : s <= i < m_gh st ->
+      In (i, m_gval st i) (popped st (m_gpop st i)) \/
+      exists pc, t_pc (m_thr st (m_gpop st i)) = Some pc /\ rhold pc = Some i.
+    Proof. apply (mv_rall st (mreach_inv scripts st Hs0 Hreach Hnw)). Qed.
+    Lemma mpmc_push_accounted i : s <= i < m_gt st ->
+      In (i, m_gval st i) (pushed st (m_gwho st i)) \/
+      exists pc, t_pc (m_thr st (m_gwho st i)) = Some pc /\ whold pc = Some i.
+    Proof. apply (mv_wall st (mreach_inv scripts st Hs0 Hreach Hnw)). Qed.
+
+    (* order: each thread's completed pushes, and each thread's completed pops, have strictly increasing indices *)
+    Lemma mpmc_fifo p : StronglySorted Z.lt (map fst (pushed st p)) /\ StronglySorted Z.lt (map fst (popped st p)).
+    Proof. pose proof (mreach_inv scripts st Hs0 Hreach Hnw) as I. split; [apply (mv_psort st I)|apply (mv_csort st I)]. Qed.
+
+    (* bounded / no overwrite: a stored element sits intact in its slot under its own turn mark, and two stored
+       elements never share a slot (hence at most capacity elements are stored) *)
+    Lemma mpmc_stored_intact i : stored st i ->
+      m_mark st (i mod cap) = 2 * (i / cap) + 1 /\ m_slot st (i mod cap) = m_gval st i.
+    Proof.
+      pose proof (mreach_inv scripts st Hs0 Hreach Hnw) as I. intros (A & B & C0).
+      pose proof (mv_wpub st I i A B). pose proof (mv_rund st I i ltac:(lia) C0).
+      assert (E : m_mark st (i mod cap) = 2 * (i / cap) + 1) by lia.
+      split; [exact E | apply (mv_data st I i A E)].
+    Qed.
+    Lemma mpmc_stored_distinct i j : stored st i -> stored st j -> i mod cap = j mod cap -> i = j.
+    Proof.
+      intros Hi Hj E. destruct (mpmc_stored_intact i Hi) as [A _]. destruct (mpmc_stored_intact j Hj) as [B _].
+      rewrite E in A. apply (same_slot_eq cap i j Hcap0 E). lia.
+    Qed.
+  End Props.
 End MPMC.
+
+Example mpmc_reach_ex :
+  let c := cfg_of 2 in
+  let st0 := mpmc_init c 5 [[OPush 7; OSend 8]; [OPop; ORecv]] in
+  let st := fst (mpmc_step c (fst (mpmc_step c (fst (mpmc_step c (fst (mpmc_step c st0 0%nat)) 0%nat)) 0%nat)) 1%nat) in
+  mreach c st0 st /\ nowrap c st /\ m_gt st = 6.
+Proof. cbv zeta. split; [repeat constructor | vm_compute; repeat split; reflexivity]. Qed.
